@@ -149,6 +149,11 @@ def failures_of(r):
         distinct = len(set(r.get("uuids") or []))
         if r["wcnt"] != len(r["stored"]) or r["werr"]:
             out.append({"class": "graph-write-count", "wcnt": r["wcnt"], "stored": len(r["stored"])})
+        br = r.get("bounded_read")
+        if br is not None and rd["err"] == "nil" and rd["cnt"] == r["wcnt"] and (br.get("panic") or br["err"] or br["cnt"] != rd["cnt"] or not br["same"]):
+            out.append({"class": "graph-bounded-read", "name": r.get("name"), "bounded_read": br, "wcnt": r["wcnt"],
+                        "explain": "ReadIntoGraph with NewBoundedBuilder(largest text/blob value of the graph) does not read what WriteGraph wrote",
+                        "stored_hex": r["stored"], "triples": r["triples"]})
         if rd["err"] != "nil" or rd["cnt"] != r["wcnt"] or rd["lines"] != r["stored"] or r["wlines"] != r["stored"]:
             out.append({"class": "graph-roundtrip", "wcnt": r["wcnt"], "read_cnt": rd["cnt"], "read_err": rd["err"], "name": r.get("name"),
                         "stored": [vc.show(h) for h in r["stored"]], "stored_hex": r["stored"], "triples": r["triples"], "read_back": [vc.show(h) for h in rd["lines"]]})
@@ -178,6 +183,26 @@ def run(ctx):
         ctx.violation({"kind": "property-violated-by-implementation", "class": "constructor-getter-mismatch", "explain": r["what"],
                        "failing_input": {"id": vc.show(r["id"]), "anchor": r["anchor"], "printed": vc.show(r["printed"])}})
     rows = [r for r in rows if r["kind"] != "ctor"]
+    # literal.NewBoundedBuilder: what Build accepts parses back from its own printed form with the same builder
+    bounded = [r for r in rows if r["kind"] == "bounded"]
+    rows = [r for r in rows if r["kind"] != "bounded"]
+    nb = 0
+    for r in bounded:
+        why = None
+        if r.get("panic"):
+            why = "panics"
+        elif r["size"] <= r["max"] and not r["build_ok"]:
+            why = "Build refuses a value within the bound"
+        elif r["size"] > r["max"] and (r["build_ok"] or r["parse_ok"]):
+            why = "a value larger than the bound is accepted"
+        elif r["build_ok"] and not (r["parse_ok"] and r.get("equal")):
+            why = "a literal the bounded builder built does not parse back (equal) from its printed form with the same builder"
+        if why:
+            nb += 1
+            if nb <= 3:
+                ctx.violation({"kind": "property-violated-by-implementation", "class": "bounded-builder-roundtrip", "explain": why,
+                               "failing_input": {k: (vc.show(v)[:120] if k == "text" else v) for k, v in r.items()}})
+    ctx.cov["bounded_builder_cases"] = len(bounded)
     faults = [r for r in rows if r["kind"] in ("wfault", "rfault")]
     rows = [r for r in rows if r["kind"] not in ("wfault", "rfault")]
     second = [r for r in rows if r["kind"] == "secondpass"]
